@@ -2,6 +2,7 @@ package props
 
 import (
 	"fmt"
+	"strings"
 	"testing"
 	"time"
 
@@ -82,6 +83,10 @@ func c04Event(m *Machine, s *Step) (pid string, ev string) {
 					return who, "correct2"
 				}
 				return who, "fail"
+			}
+			if m.C.Cfg.OneTimeTOTP && u.TOTPLastCode == strings.TrimSpace(s.Secret) {
+				m.flag("totp-replay")
+				return who, "fail" // a repeated code is refused whatever its value: an authentication failure like any other
 			}
 			a, z := totpValidAt(s.Secret, u.TOTPSecretKey, r.T0, r.T1)
 			if a != z {
@@ -300,7 +305,7 @@ var profC04 = profile{
 		c.LockAfter = rapid.IntRange(1, 6).Draw(t, "lockafter4")
 		c.LockWindowS = pick(t, "win", 20, 60, 300, 3600, 86400)
 		c.LockDurS = pick(t, "dur", 5, 30, 600, 43200, 172800)
-		c.OneTimeTOTP = false
+		c.OneTimeTOTP = chance(t, "onetime4", 50)
 		c.EmailAuth = false
 		c.Middleware = ""
 		for i := range c.Accounts {
